@@ -23,6 +23,16 @@ def single_sample_specs(ctx):
         sp["noise"] = rng.choice([0.05, 1e-3])
         sp["options"] = {"n_search": 32, "max_fun_evals": 70, "noise_final_samples": 3}
         specs.append(sp)
+    # budgets that leave fewer evaluations than noise_final_samples after the initial design (the number of final samples is capped)
+    for _ in range(5 if ctx.quick else 30):
+        mode = rng.choice(["auto", "decl", "he"])
+        sp = gen.make_spec(rng, D=rng.choice([1, 2, 3]), mode=mode, geom=rng.choice(["box", "tight"]), cons=None, opt_loc="inside", target="quad")
+        nfs = rng.choice([None, 10, 5, 3, 50])
+        left = rng.randint(1, (nfs or 10) - 1) + rng.choice([0, 0, 6])
+        sp["options"] = {"n_search": 32, "max_fun_evals": (34 if mode == "auto" else 33) + left}
+        if nfs is not None:
+            sp["options"]["noise_final_samples"] = nfs
+        specs.append(sp)
     # deterministic targets with a large value: identical repeats, must stay deterministic
     for _ in range(2 if ctx.quick else 8):
         sp = gen.make_spec(rng, D=rng.choice([1, 2]), mode="det", geom="box", cons=None, opt_loc="inside", target="quad")
